@@ -202,7 +202,7 @@ def run(tier, seed):
                                     theorem=pg['theorems'], problems=pg['problems']), False))
     ncases = 60 if tier == 'quick' else 800
     cases = [seed * 100000 + 19000 + i for i in range(ncases)]
-    for r in core.run_cases(run_case, cases):
+    for r in core.run_cases(run_case, core.with_corpus(PID, cases)):
         rep.merge(r)
     rep.obligation('correspondence: Point.PointQuery.point_query (refused / CASE 1 box and local index) = outcome of '
                    'LevelDataSelector.__call__ and the (array, coordinates) handed to map_coordinates',
